@@ -12,6 +12,31 @@ CLAIMED = {
     note="Trusted: Lean kernel + standard axioms; harness/driver; scipy find_peaks default behaviour modelled by its contract; float rounding (near ties within 1e-7 relative are skipped and counted).",
     technique="Lean 4 theorems over an executable model + table bridge + differential correspondence",
     design="5/C16"),
+ "C01": dict(
+    text="Theorems: FFT length never truncates (all four branches of prepare_fft_settings), nextpow2 terminates with the minimal power, idempotence iff state != {n: None}; every "
+         "registered combination is positively homogeneous with the stated closed forms for proportional components; taper, |DFT| and window smoothing are homogeneous, ratio scale law. "
+         "The chain taper -> |rfft| -> combine -> smooth -> divide is the model's definition; it is tied to the code by differential execution of hvsrpy.process for every method x operator x "
+         "taper (definitional DFT in the model, incl. the default FFT length 32768), by seam checks (taper, rfft, combine functions) and by the bridge on the three registers.",
+    note="Trusted: numpy rfft = DFT (cross-checked on every case), np.percentile. The end-to-end scale-invariance theorem is proved per building block, not composed; the three laws and the closed form are tested on the implementation at n = 32768.",
+    technique="Lean 4 theorems + differential correspondence + register bridge", design="5/C01"),
+ "C02": dict(
+    text="Theorems for the mirrored kernels: output = sum(w x)/sum(w) or 0, constants reproduced, bounds for non-negative weights, linearity, row independence, KO/Parzen = sinc^4, "
+         "rect/tri closed forms, non-negativity of all six windows (log-triangular via monotone log), Savitzky-Golay moments and reproduction of every cubic polynomial. Tied to the code by "
+         "differential execution of all seven operators, compiled AND interpreted (.py_func), and by the bridge on every numeric constant and the operator registry.",
+    note="Trusted: libm/np.power differences (1e-9); samples within 1e-9 of a window limit are near ties (skipped and counted).",
+    technique="Lean 4 theorems + differential correspondence (two seams) + constant bridge", design="5/C02"),
+ "C03": dict(
+    text="Theorems: scatter/gather bookkeeping is the identity for every arrangement of time steps (one row per record in input order), keep-smallest and keep-majority are order-preserving "
+         "filters on the minimal resp. a most frequent dt, Nyquist guard sound and complete w.r.t. the largest kept dt, rows of a successful process are per-record curves. Tied to the code by "
+         "mixed-dt lists under all three policies (model + alone/permuted runs at the default FFT length) and by the bridge on nextpow2/Nyquist constants and policy names.",
+    note="Trusted: float equality of dt values as dict keys (mirrored).",
+    technique="Lean 4 theorems (list bookkeeping) + differential correspondence + bridge", design="5/C03"),
+ "C04": dict(
+    text="Theorems over Real.cos/sin: rotation preserves energy, composes, inverts, is 360-periodic; stored orientation normalised to [0,360); polarised motion recovered after orienting to north; "
+         "single azimuth = north component after orienting (for every current orientation), 180-degree antisymmetry of the projection, rotation invariance of the spectral energy, azimuthal result = "
+         "stack of single-azimuth results at a fixed point of the FFT state. Tied to the code by orient_sensor_to and process correspondence and by metamorphic runs at the default FFT length.",
+    note="RotDpp monotonicity/bounds in the percentile are tested on the implementation (np.percentile trusted), not proved.",
+    technique="Lean 4 theorems (trigonometric identities, fold induction) + differential correspondence", design="5/C04"),
  "C08": dict(
     text="Theorems over the Lean peak model (soundness of the local-maximum search, completeness for strict maxima, peak = highest interior maximum of the slice, "
          "absent iff no interior maximum, peaks track the last range after ANY sequence of range updates and mask writes); tied to the code by differential execution on "
